@@ -16,7 +16,9 @@ Driver for type resolution (C09).
                          iteration order: outside the type model)
       -> loaderr | outsideModel
   spec.types <files in wire format>
-      -> ok ( L <key> <verdict> )*
+      -> ok ( L <key> <verdict> )* ( D <key> <typedef verdict> )*
+         D: one item per `typedef` statement of every loaded (sub)module, at any scope, used or not
+            (key = file:line:col of the typedef statement), see `tdItem`
          verdict = T<projection>  the specification binds every name of the derivation and the
                                   resolved type must show this projection (`Spec.Types.SType.dump`)
                  | ERR            a name is unknown, a prefix unknown, or the derivation is cyclic:
@@ -63,6 +65,64 @@ def runTypes (files : List SrcFile) : String :=
       (collect ["leaf", "leaf-list"] [] m.stmt).map fun (l, up) => leafItem env m l up
     "ok ID " ++ errsText idErrs ++ " TD " ++ errsText td ++ String.join leaves
 
+/-! ### Typedef statements themselves, used or not
+
+"An unknown, unresolvable or cyclic type reference is an error" also where the reference is the
+`type` of a typedef that no leaf reaches: every typedef statement of the schema (any scope) is
+judged by the specification on its own. -/
+
+/-- The positions of `t` and of every statement below it. -/
+def locsBelow (t : Stmt) : List String := (descendants t).map Stmt.location
+
+open Goyang.Spec.Types in
+/-- The statements of the derivation of the type statement `t` (in module `root`, enclosed by
+`scope`): `t`, its member types, the typedef its name denotes (`bindType`) with that typedef's type
+statement, and so on (the closure of `Spec.Types.Uses`); the positions of these statements and of
+everything below the type statements.  `acc.1`: the type statements visited so far.  Where a name
+of the derivation denotes two typedefs (or a typedef without a type) the statements beyond are not
+determined: the mark `?` is added. -/
+def reach (reg : Registry) : Nat → Mod → List Stmt → Stmt → (List Key × List String) → (List Key × List String)
+  | 0, _, _, _, acc => acc
+  | fuel + 1, root, scope, t, (vis, out) =>
+    let key : Key := (root.seq, t.line, t.col)
+    if vis.contains key then (vis, out) else
+    let acc : List Key × List String := (key :: vis, out ++ locsBelow t)
+    let acc := (t.all "type").foldl (fun acc ut => reach reg fuel root (t :: scope) ut acc) acc
+    match bindType reg root scope t.arg with
+    | .typedef m td sc =>
+      match td.one? "type" with
+      | some tt => reach reg fuel m (td :: sc) tt (acc.1, acc.2 ++ [td.location])
+      | none => (acc.1, acc.2 ++ ["?"])
+    | .ambiguous => (acc.1, acc.2 ++ ["?"])
+    | _ => acc
+
+open Goyang.Spec.Types in
+/-- The verdict for the typedef statement `td` (in module `m`, enclosed by `up`, nearest first):
+`OK` | `NOCLAIM:<why>` | `ERR <direct> <n> <position>*n` — the type of the typedef is unknown,
+unresolvable or cyclic: an error must be reported; `direct` is the position of the typedef's type
+statement when its own name is unbound (then the error stands exactly there), else `-`; the
+positions are those of the statements of the derivation (some error must stand at one of them). -/
+def tdItem (reg : Registry) (m : Mod) (td : Stmt) (up : List Stmt) : String :=
+  " D " ++ td.location ++ " " ++
+  match up with
+  | [] => "NOCLAIM:no-scope"
+  | p :: _ =>
+    if (declared p td.arg).length != 1 then "NOCLAIM:not-declared-once-in-a-scope" else
+    match td.one? "type" with
+    | none => "NOCLAIM:typedef-without-type"
+    | some t =>
+      match specResolve reg (specFuel reg) m (td :: up) t [] with
+      | .ok _ => "OK"
+      | .noClaim why => "NOCLAIM:" ++ why
+      | .error =>
+        let direct := match bindType reg m (td :: up) t.arg with
+          | .unbound => t.location
+          | _ => "-"
+        let cl := (reach reg (specFuel reg) m (td :: up) t ([], [td.location])).2.eraseDups
+        if direct == "-" && cl.contains "?" then "NOCLAIM:ambiguous-name-in-the-derivation" else
+        let cl := cl.filter (· != "?")
+        "ERR " ++ direct ++ " " ++ toString cl.length ++ String.join (cl.map (" " ++ ·))
+
 open Goyang.Spec.Types in
 def runSpec (files : List SrcFile) : String :=
   match Identity.loadAll files with
@@ -78,7 +138,9 @@ def runSpec (files : List SrcFile) : String :=
              | .ok st => "T" ++ st.dump
              | .error => "ERR"
              | .noClaim why => "NOCLAIM:" ++ why)
-    "ok" ++ String.join leaves
+    let tds := reg.mods.flatMap fun m =>
+      (collect ["typedef"] [] m.stmt).map fun (td, up) => tdItem reg m td up
+    "ok" ++ String.join leaves ++ String.join tds
 
 end Drv.Types
 
